@@ -25,7 +25,7 @@ def _mgr(*names):
 PLAN = {
     "C01": dict(
         functions=dict(quick=_mgr("Module.send_message", "forward_message", "process_message", "add_subscription", "remove_subscription",
-                                  "remove_module", "read_message", "send_message"),
+                                  "remove_module", "read_message", "send_message", "run"),
                        thorough=MANAGER_ALL),
         sidecars=MGR_SIDECARS, assumptions=ENV_ASSUMPTIONS,
         explanation="routing exactness is the postcondition of forward_message (recipients = subscribers at entry that pass the destination filter and are ready or loggers, "
@@ -38,7 +38,7 @@ PLAN = {
                     "ctypes array indices, sends on closed sockets, containers mutated while iterated), and the loop body of run() re-establishes the manager invariant"),
     "C05": dict(
         functions=dict(quick=_mgr("Module.send_message", "forward_message", "send_message", "send_ack", "send_to_loggers", "send_failed_message",
-                                  "send_client_close", "send_client_info", "process_message", "read_message"),
+                                  "send_client_close", "send_client_info", "process_message", "read_message", "connect_module"),
                        thorough=MANAGER_ALL),
         sidecars=MGR_SIDECARS, assumptions=ENV_ASSUMPTIONS,
         explanation="whole frames and gap-free sequence numbers are the protocol preconditions of Socket.sendall (header only at a frame boundary, msg_count == frames + 1, payload of exactly "
@@ -49,7 +49,7 @@ PLAN = {
         explanation="ids_ok (no two connected modules share an id unless both allow multiple instances; ids in range) is preserved by connect_module, whose postcondition also states that "
                     "every option of the request takes effect as named, that refusals close the requester and leave every incumbent untouched, and that id 0 gets a free dynamic id"),
     "C07": dict(
-        functions=dict(quick=_mgr("remove_module", "send_client_close", "read_message", "forward_message", "send_ack", "send_to_loggers", "connect_module", "process_message"),
+        functions=dict(quick=_mgr("remove_module", "send_client_close", "read_message", "forward_message", "send_ack", "send_to_loggers", "connect_module", "process_message", "run"),
                        thorough=MANAGER_ALL),
         sidecars=MGR_SIDECARS, assumptions=ENV_ASSUMPTIONS,
         explanation="remove_module's postcondition: gone from the table, from every subscription set and from the logger set, closed, exactly one CLIENT_CLOSED; `departed`: modules only leave by "
